@@ -7,7 +7,9 @@
 (*   nodes  |-> every Node object created (by identity):                   *)
 (*              [name, fname (callable's __name__), fid (identity of the   *)
 (*               callable object, as a small integer), args, kwargs        *)
-(*               (rendered static arguments), inputs |-> <<"in=parent.out">>]*)
+(*               (rendered static arguments), id (identity of the node     *)
+(*               object), ins |-> << <<input, id of the parent, output>> >>,*)
+(*               inputs |-> <<"in=parent.out">> (for the reader)]          *)
 (*   build1, build2 |-> names of the nodes of each program's result, for   *)
 (*              two independent builds of the same case                    *)
 (*   pre, uni |-> (union cases) the descriptions of the nodes of the       *)
@@ -76,6 +78,14 @@ DupCases == {[kind |-> "names", start |-> s, p |-> <<o>>, q |-> <<>>, union |-> 
                 u \in {"single", "from_actions", "add", "iadd"}}
         \cup {[kind |-> "names", start |-> "E", p |-> <<Op("dup_add", "par1", "", "", 0), Op("norm", "", "", "x", 2)>>,
                q |-> <<Op("norm", "", "", "x", 2)>>, union |-> u] : u \in {"single", "from_actions", "add"}}
+\* (W) ONE from_source array whose elements share the payload: S1 = three times the same callable object (1-d), S2 = a 2 x 2
+\*     array with three equal elements and one other, S3 = two equal partials (same function, same static arguments) and one
+\*     other; followed by per-node operations and reductions; the result made into a Cascade alone / with the source
+WPrograms == {<<Op("map", "par1", "", "", 0)>>, <<Op("addc", "", "", "", 1)>>, <<Op("select", "", "", "x", 0), Op("map", "def1", "", "", 0)>>,
+              <<Op("sum", "", "", "x", 0)>>, <<Op("map", "par1", "", "", 0), Op("sum", "", "", "x", 0)>>,
+              <<Op("map", "par1", "", "", 0), Op("map", "par2", "", "", 0)>>}
+SameSourceCases == {[kind |-> "names", start |-> s, p |-> p, q |-> q, union |-> u] :
+                       s \in {"S1", "S2", "S3"}, p \in WPrograms, q \in WPrograms, u \in {"single", "from_actions"}}
 \* (S) two sources, created by one from_source call or by two
 SrcCallables == {"slam1", "slam2", "sdef1", "sdef2", "spar1", "spar2"}
 SourceCases == {[kind |-> "sources", start |-> "", p |-> <<Op("source", c1, "", IF one THEN "one_call" ELSE "two_calls", 0)>>,
@@ -108,32 +118,47 @@ TwiceCases == {[kind |-> "operands", start |-> s, p |-> <<From(s), Op(k1, "", ""
                   s \in {"A", "A2", "D"}, k \in {"mean_kw", "addc", "concatenate_kw"}, v \in {0, 1}}
 
 \* ======================================================================== post-condition
-Comp(n) == <<n.fid, n.args, n.kwargs, n.inputs>>          \* same callable, same static arguments, same inputs IN THE SAME ORDER (a sequence)
+\* The computation a node denotes, as a term over callable identities: same callable, same static arguments, same inputs (each
+\* input name bound to the term of the parent and the output read).  L is the list of node descriptions the node belongs to
+\* (parents are referred to by the identity `id` of the node object).  Two source nodes with the same payload denote the same
+\* computation whatever they are called; a name must stand for ONE computation.
+NodeOf(L, id) == CHOOSE n \in SetOf(L) : n.id = id
+RECURSIVE Term(_, _)
+Term(L, n) == <<n.fid, n.args, n.kwargs, {<<i[1], Term(L, NodeOf(L, i[2])), i[3]>> : i \in SetOf(n.ins)}>>
+Den(L, n) == [name |-> n.name, fname |-> n.fname, fid |-> n.fid, args |-> n.args, kwargs |-> n.kwargs, term |-> Term(L, n)]
+Dens(L) == {Den(L, n) : n \in SetOf(L)}
 CollisionKind(a, b) == IF a.fid # b.fid THEN (IF a.fname = "<lambda>" THEN "different_lambdas" ELSE "different_callables_with_equal_name")
-                       ELSE IF a.inputs # b.inputs THEN "different_inputs" ELSE "different_static_arguments"
+                       ELSE IF a.args # b.args \/ a.kwargs # b.kwargs THEN "different_static_arguments" ELSE "different_inputs"
 Post(c, r) ==
-  LET ns == SetOf(r.nodes)
-      clashes == {<<a, b>> \in ns \X ns : a.name = b.name /\ Comp(a) # Comp(b)}
+  LET ds == Dens(r.nodes)
+      clashes == {<<a, b>> \in ds \X ds : a.name = b.name /\ a.term # b.term}
   IN  {"NameInjective:" \o CollisionKind(x[1], x[2]) : x \in clashes}
  \cup (IF r.build1 = r.build2 THEN {} ELSE {"Deterministic"})
  \cup {"OperandsIntact:" \o r.steps[k].op : k \in {k \in DOMAIN r.steps : r.steps[k].before # r.steps[k].after}}
  \cup (IF "union" \in DOMAIN c /\ Cardinality(SetOf(r.uninames)) # Len(r.uninames) THEN {"NameInjective:one_name_on_two_nodes_of_a_cascade"} ELSE {})
- \cup (IF "union" \in DOMAIN c /\ SetOf(r.uni) # SetOf(r.pre) THEN {"NameInjective:union_lost_or_rewired_a_computation"} ELSE {})
+ \* a union keeps every computation of the united actions, and every name in it still stands for the computation it was given to
+ \cup (IF "union" \in DOMAIN c
+       THEN LET P == {<<d.name, d.term>> : d \in Dens(r.pre)}
+                U == {<<d.name, d.term>> : d \in Dens(r.uni)}
+            IN IF {u[2] : u \in U} = {q[2] : q \in P} /\ U \subseteq P THEN {} ELSE {"NameInjective:union_lost_or_rewired_a_computation"}
+       ELSE {})
  \cup (IF c.kind # "operands" /\ \E k \in DOMAIN r.steps : r.steps[k].raised THEN {"raised"} ELSE {})
  \cup (IF c.kind # "operands" /\ Len(r.steps) # 2 * (Len(c.p) + Len(c.q)) THEN {"program_not_executed"} ELSE {})
 
 \* ======================================================================== the two TLC passes
-Generate == JsonSerialize(IOEnv.CASES_FILE, SetToSeq(NameCases) \o SetToSeq(PermCases) \o SetToSeq(SharedCases) \o SetToSeq(UnionCases) \o SetToSeq(DupCases) \o SetToSeq(SourceCases) \o SetToSeq(OperandCases) \o SetToSeq(TwiceCases) \o SetToSeq(SliceCases))
+Generate == JsonSerialize(IOEnv.CASES_FILE, SetToSeq(NameCases) \o SetToSeq(PermCases) \o SetToSeq(SharedCases) \o SetToSeq(UnionCases) \o SetToSeq(DupCases) \o SetToSeq(SameSourceCases) \o SetToSeq(SourceCases) \o SetToSeq(OperandCases) \o SetToSeq(TwiceCases) \o SetToSeq(SliceCases))
 \* names are also compared ACROSS cases: G = every node description of the whole run, Amb = names with two computations
 Judge ==
   LET cs == JsonDeserialize(IOEnv.CASES_FILE)
       rs == JsonDeserialize(IOEnv.RESULTS_FILE)
-      G == UNION {SetOf(rs[i].nodes) : i \in {i \in DOMAIN rs : "error" \notin DOMAIN rs[i]}}
-      Amb == {n.name : n \in {n \in G : \E m \in G : m.name = n.name /\ Comp(m) # Comp(n)}}
+      ok == {i \in DOMAIN rs : "error" \notin DOMAIN rs[i]}
+      DS == [i \in ok |-> Dens(rs[i].nodes)]
+      G == UNION {DS[i] : i \in ok}
+      Amb == {n.name : n \in {n \in G : \E m \in G : m.name = n.name /\ m.term # n.term}}
   IN \A i \in DOMAIN cs :
-       LET bad == IF "error" \in DOMAIN rs[i] THEN {"harness_error"}
+       LET bad == IF i \notin ok THEN {"harness_error"}
                   ELSE Post(cs[i], rs[i])
                        \cup {"NameInjective:" \o CollisionKind(x[1], x[2]) :
-                               x \in {y \in {a \in SetOf(rs[i].nodes) : a.name \in Amb} \X G : y[1].name = y[2].name /\ Comp(y[1]) # Comp(y[2])}}
+                               x \in {y \in {a \in DS[i] : a.name \in Amb} \X G : y[1].name = y[2].name /\ y[1].term # y[2].term}}
        IN bad = {} \/ PrintT("B|" \o ToString(i) \o "|" \o ToString(bad))
 =============================================================================
